@@ -541,9 +541,11 @@ mod verif_arith_kani {
         expect_fold(Percent, 7.0, -3.0, -2.0);
         expect_fold(Percent, -7.0, -3.0, -1.0);
         expect_fold(Percent, 5.5, 2.0, 1.5);
-        expect_fold(Percent, -6.0, 3.0, 0.0);
-        // 6 % -3: Lua 5.1 computes 6 - floor(-2) * -3 = 6 - 6 = +0; Luau's fmod gives 0 as well; the sign of
-        // this zero is not pinned here (== compares +0 and -0 equal)
+        // -6 % 3 and 6 % -3: Lua 5.1's formula gives +0, Luau's fmod keeps the sign of the dividend's zero;
+        // the sign of this zero is not pinned (== compares +0 and -0 equal)
+        if let Some(v) = fold(Percent, -6.0, 3.0) {
+            assert!(v == 0.0, "O-val: -6 % 3 == 0");
+        }
         if let Some(v) = fold(Percent, 6.0, -3.0) {
             assert!(v == 0.0, "O-val: 6 % -3 == 0");
         }
